@@ -91,9 +91,13 @@ type Schema struct {
 	Notes  []string `json:"notes"`
 	// every package-level function with the signature of a discriminator look-up, recognised or not (for the harness)
 	LookupSigs []LookupSig `json:"lookup_sigs"`
+	RegSigs    []RegSig    `json:"reg_sigs"`
 }
 
 type LookupSig struct{ Pkg, Name, KeyType string }
+
+// every exported function with the signature of a table registration, recognised or not (for the harness)
+type RegSig struct{ Pkg, Name, KeyType string }
 
 var pkgs = []struct{ short, dir, imp string }{
 	{"bse", "bjse-trade-bin/messages", "github.com/xinchentechnote/fin-proto-go/bjse-trade-bin/messages"},
@@ -1279,10 +1283,24 @@ func (pi *pkgInfo) tables(sc *Schema, tyID func(pkg, name string) (int, bool)) {
 	sort.Strings(sigNames)
 	for _, name := range sigNames {
 		fd := pi.funcs[name]
-		if fd.Type.Params != nil && len(fd.Type.Params.List) == 1 && len(fd.Type.Params.List[0].Names) == 1 && fd.Type.Results != nil && len(fd.Type.Results.List) == 2 &&
+		if ast.IsExported(name) && fd.Type.TypeParams == nil && fd.Type.Params != nil && len(fd.Type.Params.List) == 1 && len(fd.Type.Params.List[0].Names) == 1 && fd.Type.Results != nil && len(fd.Type.Results.List) == 2 &&
 			typeStr(fd.Type.Results.List[0].Type) == "codec.BinaryCodec" && typeStr(fd.Type.Results.List[1].Type) == "error" {
 			if kt := typeStr(fd.Type.Params.List[0].Type); kt == "string" || (scalarWidth(kt) > 0 && !strings.HasPrefix(kt, "float")) {
 				sc.LookupSigs = append(sc.LookupSigs, LookupSig{pi.short, name, kt})
+			}
+		}
+	}
+	for _, name := range sigNames {
+		fd := pi.funcs[name]
+		if ast.IsExported(name) && fd.Type.TypeParams == nil && fd.Type.Results == nil && fd.Type.Params != nil {
+			var pts []string
+			for _, p := range fd.Type.Params.List {
+				for k := 0; k < max(1, len(p.Names)); k++ {
+					pts = append(pts, typeStr(p.Type))
+				}
+			}
+			if len(pts) == 2 && (pts[0] == "string" || (scalarWidth(pts[0]) > 0 && !strings.HasPrefix(pts[0], "float"))) && strings.ReplaceAll(pts[1], " ", "") == "?func()codec.BinaryCodec" {
+				sc.RegSigs = append(sc.RegSigs, RegSig{pi.short, name, pts[0]})
 			}
 		}
 	}
